@@ -68,6 +68,37 @@ func init() {
 		}
 		cont(st, fr, And(Eq(a.Len, b.Len), ex.contentEq(st, a, b, a.Len)))
 	}
+	// encoding/json.Marshal of a float64 and strconv.ParseFloat: ASSUMED stdlib contract (reported):
+	// parsing the JSON text of a finite float64 gives back exactly that value and no error
+	intrinsics["encoding/json.Marshal"] = func(ex *Exec, fr *Frame, in ssa.Instruction, fn *ssa.Function, args []Value, st *State, cont callCont) {
+		iv, ok := args[0].(*IfaceV)
+		f64 := types.Typ[types.Float64]
+		if !ok || Subst(iv.Tag, st.substMap()) != ex.eng.tags.Tag(f64) {
+			panic(abortPath{"encoding/json.Marshal of a value that is not a float64 (reflection is not modelled)"})
+		}
+		x := ex.unbox(f64, iv, st).(*Term)
+		base := st.FreshRegion()
+		id := *st.nextRg
+		n := FreshVar("jsonlen", BV(64))
+		st.Assume(And(BVCmp("bvule", BVc(1, 64), n), BVCmp("bvule", n, BVc(32, 64))))
+		m := make(map[int64]*Term, len(st.textFloat)+1)
+		for k, v := range st.textFloat {
+			m[k] = v
+		}
+		m[id] = x
+		st.textFloat = m
+		ex.intrUsed["assume:strconv.ParseFloat(string(json.Marshal(x))) == x for float64 x"] = true
+		cont(st, fr, &TupleV{Elems: []Value{&SliceV{Base: base, Off: BVc(0, 64), Len: n, Cap: n}, NilIface}})
+	}
+	intrinsics["strconv.ParseFloat"] = func(ex *Exec, fr *Frame, in ssa.Instruction, fn *ssa.Function, args []Value, st *State, cont callCont) {
+		s := args[0].(*Term)
+		if x, ok := st.strFloat[s]; ok {
+			cont(st, fr, &TupleV{Elems: []Value{x, NilIface}})
+			return
+		}
+		e := st.SymValue(errorType, "pferr", *st.nextRg).(*IfaceV)
+		cont(st, fr, &TupleV{Elems: []Value{FreshVar("pf", SF64), e}})
+	}
 	intrinsics["strconv.FormatInt"] = strRes
 	intrinsics["strconv.FormatUint"] = strRes
 	intrinsics["encoding/hex.EncodeToString"] = func(ex *Exec, fr *Frame, in ssa.Instruction, fn *ssa.Function, args []Value, st *State, cont callCont) {
